@@ -28,7 +28,7 @@ fn opts(f: &VaultId) -> AccessOptions {
     AccessOptions { folder: Some(*f), ..Default::default() }
 }
 
-pub async fn run(args: &Args, rep: &mut Reporter) {
+pub async fn run(args: &Args, rep: &mut Reporter, prop: &str) {
     let rounds = args.by_tier(8usize, 32usize);
     let mut rng = Rng::new(args.shard_seed() ^ 0xC02E);
     for (ci, config) in Config::matrix().iter().enumerate() {
@@ -52,6 +52,9 @@ pub async fn run(args: &Args, rep: &mut Reporter) {
                 continue;
             }
         };
+        if prop == "C20" {
+            let _ = local.account.initialize_search_index().await;
+        }
         // a history that fills the folders
         let model = match snapshot::live(&mut local.account).await {
             Ok((v, _)) => AccountModel::from_view(v),
@@ -102,6 +105,9 @@ pub async fn run(args: &Args, rep: &mut Reporter) {
                     return;
                 }
             };
+            if prop == "C20" {
+                let _ = local.account.initialize_search_index().await;
+            }
             let mut remote = match remote {
                 Ok(o) => o,
                 Err(e) => {
@@ -187,6 +193,21 @@ pub async fn run(args: &Args, rep: &mut Reporter) {
             if let Err(e) = merged {
                 rep.violation(&format!("C02:{backend}:merge:{variant}:refused"), &format!("merging the other replica's log failed: {e}"), ctx.clone());
                 break;
+            }
+            if prop == "C20" {
+                // the live search index follows the merged folder
+                match snapshot::live(&mut local.account).await {
+                    Ok((v, _)) => {
+                        let m = AccountModel::from_view(v);
+                        vmodel::index::check_index(rep, &local.account, &m, &[], backend, &format!("merge_{variant}"), &ctx).await;
+                        driver.model = m;
+                    }
+                    Err(e) => report_snap_error(rep, "C20", backend, "served", variant, &e, &ctx),
+                }
+                for _ in 0..10 {
+                    driver.step(&mut local.account).await;
+                }
+                continue;
             }
             // ---- three-way comparison, live and after a cold reopen ---------------------------------------
             let mut bad = false;
